@@ -209,7 +209,7 @@ impl Check for C15 {
         let q = run.tier.quick();
         run.rule("every (source size, destination size, src_rect, dst, operation) tuple of the stated ranges is executed once on fresh surfaces with all-distinct pixels and compared with a double-loop block-transfer model; non-trivial = at least one destination pixel is written");
         let sizes: Vec<i32> = if q { vec![0, 2, 3] } else { vec![0, 1, 2, 3] };
-        let mut ops: Vec<BOp> = vec![BOp::Copy, BOp::Alpha(0.5), BOp::Alpha(1.0), BOp::Alpha(0.0), BOp::Alpha(1.004), BOp::Alpha(300.0), BOp::Alpha(0.003)];
+        let mut ops: Vec<BOp> = vec![BOp::Copy, BOp::Alpha(0.5), BOp::Alpha(1.0), BOp::Alpha(0.0), BOp::Alpha(1.004), BOp::Alpha(300.0), BOp::Alpha(0.003), BOp::Alpha(-0.5), BOp::Alpha(-0.006)];
         let modes: Vec<BlendMode> = if q { vec![BlendMode::Src, BlendMode::SrcOver, BlendMode::Xor, BlendMode::Clear, BlendMode::Dst, BlendMode::DstIn] } else { MODES.to_vec() };
         for m in modes {
             ops.push(BOp::Blend(m));
